@@ -73,23 +73,51 @@ def run(chk):
               "samples per frame is %s; documented sample_rate / 50" % (rs[0].ret if rs else None))
     # process
     SPF = prog.fn_path("rustzx_core", "ZXMixer::samples_per_frame")
-    SCF = prog.fn_path("rustzx_core", "ZXMixer::sample_count_for_frame_fraction")
     GEN = prog.fn_path("rustzx_core", "ZXMixer::gen_sample")
-    w = walker(opaque=[SPF, SCF, GEN])
+    QLEN, SPFs, LAST = tm.sym("QLEN", 64), tm.sym("SPF", 64), tm.sym("mix.last_pos", 64)
+    # the helper that turns the frame fraction into a sample index is inlined (it may be a method, an associated
+    # function or no function at all): the position is read off the path instead
+    w = walker(opaque=[SPF, GEN])
     base = w.effect_hook
 
     def hook(w_, st, path, a, d, wh):
         if path == SPF:
             return EffectResult(tm.sym("SPF", 64), havoc=False)
-        if path == SCF:
-            return EffectResult(tm.sym("POS", 64), havoc=False)
         return base(w_, st, path, a, d, wh)
     w.effect_hook = hook
+    NOW = tm.sym("now", 64)
+
+    def position(r):
+        """the sample index `now` maps to on this path: SPF when now >= 1.0, else (SPF as f64 * now) as usize"""
+        cand = None
+        for c in r.pc:
+            if c[0] in ("eq", "ne") and isinstance(c[1], T) and c[1].op in ("ult", "ule") and LAST in c[1].args:
+                cand = [a_ for a_ in c[1].args if a_ is not LAST][0]
+        if cand is None:
+            return None, "no comparison of the position with the last position"
+        ge1 = None
+        for c in r.pc:
+            if c[0] in ("eq", "ne") and isinstance(c[1], T) and c[1].op in ("app:fGe", "app:fGt", "app:fLt", "app:fLe") and NOW in c[1].args and 1.0 in [fconst(a_) for a_ in c[1].args]:
+                truth = (c[0] == "ne")
+                now_first = c[1].args[0] is NOW
+                op = c[1].op
+                if op in ("app:fGe", "app:fGt"):
+                    ge1 = truth if now_first else not truth
+                else:
+                    ge1 = (not truth) if now_first else truth
+        if cand is SPFs:
+            return (cand, None) if ge1 is True else (None, "position clamped to a whole frame although now >= 1.0 is %s" % ge1)
+        if isinstance(cand, T) and cand.op.startswith("app:FloatToInt") and isinstance(cand.args[0], T) and cand.args[0].op == "app:fMul":
+            fs = cand.args[0].args
+            other = [x for x in fs if x is not NOW]
+            if NOW in fs and len(other) == 1 and other[0].op == "app:IntToFloat" and other[0].args[0] is SPFs and ge1 is False:
+                return cand, None
+        return None, "position is %s with now >= 1.0 %s; documented samples_per_frame if now >= 1.0 else (samples_per_frame as f64 * now) as usize" % (tm.show(cand), ge1)
     st = mixer_state(w)
     rs = w.run(prog.fn(prog.fn_path("rustzx_core", "ZXMixer::process")), [Ref(("h", "mix"), (), True), tm.sym("now", 64)], genv={}, state=st)
     key = "T-GUARD/ZXMixer::process"
-    QLEN, SPFs, POS, LAST = tm.sym("QLEN", 64), tm.sym("SPF", 64), tm.sym("POS", 64), tm.sym("mix.last_pos", 64)
     npush = 0
+    forms = set()
     for r in rs:
         if r.outcome not in ("return", "cut"):
             chk.fail(key + "/paths", "%s %s" % (r.outcome, r.detail))
@@ -100,6 +128,11 @@ def run(chk):
         if pushes:
             npush += 1
             chk.check(full is False, key + "/guard", "samples are queued although the queue already holds a frame (len >= samples_per_frame: %s)" % full)
+            POS, why = position(r)
+            if POS is None:
+                chk.fail("T-GUARD/ZXMixer::sample_count_for_frame_fraction", "frame position: %s" % why)
+                continue
+            forms.add("clamp" if POS is SPFs else "scale")
             adv = c04.cc_decide(r, tm.cmp("ult", LAST, POS))
             chk.check(adv is True, key + "/advance", "samples are generated although the frame position did not advance")
             chk.check(len(gens) == len(pushes), key + "/one-sample-per-push", "%d samples generated for %d pushes" % (len(gens), len(pushes)))
@@ -112,19 +145,8 @@ def run(chk):
             if full is True:
                 chk.check(not gens and r.store[("h", "mix")].fields[fi("last_pos")] is LAST, key + "/full-inert", "a full queue still consumes generator state")
     chk.check(npush >= 1, key + "/explored", "no path of process queues a sample")
-    # position function: clamp to one frame
-    w = walker(opaque=[SPF])
-    base2 = w.effect_hook
-    w.effect_hook = lambda w_, st, path, a, d, wh: EffectResult(tm.sym("SPF", 64), havoc=False) if path == SPF else base2(w_, st, path, a, d, wh)
-    st = mixer_state(w)
-    rs = w.run(prog.fn(SCF), [Ref(("h", "mix"), (), False), tm.sym("frac", 64)], genv={}, state=st)
-    clamp = [r for r in rs if r.outcome == "return" and r.ret is SPFs]
-    other = [r for r in rs if r.outcome == "return" and r.ret is not SPFs]
-    ok = len(clamp) == 1 and len(other) == 1 and isinstance(other[0].ret, T) and other[0].ret.op.startswith("app:FloatToInt")
-    if ok:
-        c = [x for x in clamp[0].pc if x[0] in ("eq", "ne")]
-        ok = len(c) == 1 and c[0][1].op == "app:fGe" and fconst(c[0][1].args[1]) == 1.0
-    chk.check(ok, "T-GUARD/ZXMixer::sample_count_for_frame_fraction", "frame position is not 'spf if fraction >= 1.0 else (spf * fraction) as usize'")
+    chk.check(forms == {"clamp", "scale"}, "T-GUARD/ZXMixer::sample_count_for_frame_fraction",
+              "the frame position takes the forms %s; documented samples_per_frame when now >= 1.0, else (samples_per_frame as f64 * now) as usize" % sorted(forms))
     # new_frame
     w = walker(opaque=[SPF])
     base3 = w.effect_hook
